@@ -13,7 +13,7 @@ from cklgen import values as gv
 from cklref import refvalue as rv
 
 RULE = ("random lists/sets of <= 8 ints, dyadic decimals and short strings with duplicates and 1 next to 1.0; "
-        "every permutation of lists <= 5 for the statistics; ints up to 2^80 for pow/gcd/lcm/abs/sign; all 32-bit "
+        "every permutation of lists <= 5 for the statistics; ints up to 2^400 and neighbouring Fibonacci numbers up to F(651) for gcd/lcm/abs/sign; all 32-bit "
         "boundary words x shift/rotate counts 0..40 for the bitwise functions; both the legacy environment and "
         "module-qualified calls (List->reverse, Set->union, ...); a case is one (function, arguments) tuple; "
         "non-trivial = non-empty collection or non-zero number; distinct by tuple")
@@ -55,6 +55,10 @@ def gen_elem(r, kind):
         # equal objects are distinct values that compare equal (also: lists of them, maps)
         return r.choice([("obj", (("a", ("int", r.randint(0, 2))),)), ("obj", (("a", ("int", 1)), ("b", ("str", "x")))), ("obj", ()),
                          ("map", ((("str", "a"), ("int", r.randint(0, 2))),)), ("list", (("obj", (("a", ("int", r.randint(0, 1))),)),))])
+    if kind == "odd":
+        # NULL, booleans and values of different kinds are elements like any other
+        return r.choice([rv.NULL, rv.NULL, ("bool", True), ("bool", False), ("int", 1), ("int", 0), ("str", "a"), ("str", ""), ("str", "NULL"), ("dec", 1.0),
+                         ("list", (rv.NULL,)), ("list", ())])
     raise ValueError(kind)
 
 
@@ -142,8 +146,9 @@ def run_collections(spec, ctx):
     R = Runner(ctx)
     r = ctx.rng
     for i in range(spec["n"]):
-        kind = r.choice(["int", "int", "dec", "str", "mix", "obj", "eqlist"])
+        kind = r.choice(["int", "int", "dec", "str", "mix", "obj", "eqlist", "odd"])
         a, b = gen_list(r, kind), gen_list(r, kind)
+        ctx.count("element_kind:" + kind)
         as_set = r.random() < 0.5
         b_as_set = r.random() < 0.5
         A = src(SET(a) if as_set else L(a), r)
@@ -310,10 +315,19 @@ def run_stats(spec, ctx):
 def run_numeric(spec, ctx):
     R = Runner(ctx)
     r = ctx.rng
-    mags = [3, 10, 100, 2**16, 2**31, 2**53, 2**64, 2**80]
+    mags = [3, 10, 100, 2**16, 2**31, 2**53, 2**64, 2**80, 2**128, 2**200, 2**400]
+    fib = [0, 1]
+    while len(fib) < 700:
+        fib.append(fib[-1] + fib[-2])
     for i in range(spec["n"]):
         a = r.choice([1, -1]) * r.randint(0, r.choice(mags))
         b = r.choice([1, -1]) * r.randint(0, r.choice(mags))
+        if i % 9 == 1:
+            # neighbouring Fibonacci numbers: the longest run of Euclid's algorithm for their size
+            j = r.choice([10, 50, 90, 140, 200, 300, 450, 650])
+            f = r.randint(1, 5)
+            a, b = r.choice([(fib[j] * f, fib[j + 1] * f), (fib[j + 1] * f, fib[j] * f)])
+            ctx.count("euclid_worst_cases")
         k = i % 6
         if k == 0:
             x, y = r.randint(-12, 12), r.randint(0, 45)
